@@ -14,6 +14,8 @@ HOOKS = {
 }
 
 ENGINES = [
+    {"name": "store", "path": "lib/store_engine.py + harness/storeprobe + tla/{Store,StoreTrace}.tla", "serves_properties": ["C09"],
+     "kind_free_text": "TLC-checked crash model of the save protocol; strace traces validated by TLC; real SIGKILL at every syscall boundary"},
     {"name": "auth", "path": "lib/domain.py (c14) + harness/authprobe + tla/{AuthTable,Auth,AuthTrace}.tla", "serves_properties": ["C14"],
      "kind_free_text": "TLC-checked request-path model; real handler probed with the full table; rows validated by TLC"},
     {"name": "defs", "path": "lib/domain.py (c17) + harness/defsprobe + tla/{Defs,DefsGen,DefsTrace}.tla", "serves_properties": ["C17"],
@@ -83,6 +85,17 @@ CHECKS["C17"] = {"engine": "defs", "level": "model_checking", "ref": "DESIGN.md 
                          "written as YAML (two layouts / spellings) and loaded by the real LoadRecursively; Equals is exercised on single-field "
                          "variants generated by reflection over all fields (future fields included); TLC validates every recorded row.",
                  "note": DOMAIN_NOTE, "technique": "TLA+ spec enumerated by TLC as case generator and oracle; rows recorded from the real loader / Equals validated by TLC"}
+
+CHECKS["C09"] = {"engine": "store", "level": "model_checking", "ref": "DESIGN.md 6 C09",
+                 "text": "Store.tla (temp file + rename, two savers, Crash enabled in every state, reader at any time) is model-checked "
+                         "(Published, ReadYourSave) with the in-place variant as negative control. The real JsonDataStore.Save runs in a child "
+                         "process under strace: sequential saves of several sizes, a snapshot the encoder rejects, two concurrent savers; TLC "
+                         "validates the syscall trace against the concrete Published invariant after every call. Then the process is really "
+                         "killed (SIGKILL injected by strace) before every syscall of the save window and a fresh process must load exactly the "
+                         "last published snapshot.",
+                 "note": DOMAIN_NOTE + " Crash = process kill, not power loss (Save does not fsync). Exhaustive at syscall granularity for the "
+                         "snapshot sizes used; states inside one write(2) are not distinguished.",
+                 "technique": "TLA+ protocol spec model-checked with TLC; strace traces of the real Save validated by TLC; SIGKILL at every syscall boundary + Load"}
 
 NA = {}
 
